@@ -376,6 +376,12 @@ def check_event_file(chk, path, el, meta, drv, jobs, rep):
                     j = int(numpy.argmax(got != mem.astype(tp))) if numpy.dtype(tp).kind == 'f' else 0
                     chk.fail('impl', 'event file column %s.%s (format %s): row %d read back as %r, in memory %r' % (ext, name, fmt, j, got[j], mem[j]), rep)
                     return
+        # the sky-pixel columns X, Y carry the WCS of *this* file's field (TCRVLn = the ROI centre), whatever was written earlier in the process
+        evh = f['EVENTS'].header
+        for col, want in (('X', meta['ra']), ('Y', meta['dec'])):
+            k = [i for i in range(1, evh['TFIELDS'] + 1) if evh.get('TTYPE%d' % i) == col]
+            if not k or abs(float(evh.get('TCRVL%d' % k[0], float('nan'))) - want) > 1e-9:
+                chk.fail('impl', 'EVENTS column %s: TCRVL%s = %r, the field centre of this file is %r' % (col, k[0] if k else '?', evh.get('TCRVL%d' % k[0]) if k else None, want), rep)
         # GTI table
         gs, ge = numpy.array(f['GTI'].data['START']), numpy.array(f['GTI'].data['STOP'])
         if not (same_array(gs, numpy.array([a for a, b in meta['gtis']], dtype=float)) and same_array(ge, numpy.array([b for a, b in meta['gtis']], dtype=float))):
@@ -426,6 +432,9 @@ def check_event_file(chk, path, el, meta, drv, jobs, rep):
             jobs.append(('date', rep, 'met %r' % t, s, None))
     # the package reader
     ef = xEventFile(path)
+    wr = ef.wcs_reference()
+    if abs(float(wr[0]) - meta['ra']) > 1e-9 or abs(float(wr[1]) - meta['dec']) > 1e-9:
+        chk.fail('impl', 'xEventFile.wcs_reference() = %s for a file written for the field centre (%r, %r)' % ([float(x) for x in wr], meta['ra'], meta['dec']), rep)
     if ef.du_id() != du:
         chk.fail('impl', 'xEventFile.du_id() = %r for a file written for DU %d' % (ef.du_id(), du), rep)
     if ef.irf_name() != meta['irfname']:
@@ -540,6 +549,29 @@ def known_findings(chk):
                 with fits.open(p) as f:
                     col = [int(x) for x in f['EVENTS'].data['LIVETIME']]
             chk.known_finding(e, min(col) < 0 or max(col) < 2.9e9, observed=str(col))
+
+
+def charging_maps(chk, g, d):
+    """the CHRG_MAP extension: what create_charging_map_extension writes for (fast, slow) is what read_charging_map gives back as (fast, slow),
+    with the declared columns"""
+    from astropy.io import fits
+    from ixpeobssim.instrument.charging import create_charging_map_extension, read_charging_map, xBinTableHDUCharging
+    for k in range(2 if chk.tier == 'quick' else 10):
+        n = int(g.choice([4, 9, 30]))
+        fast, slow = g.uniform(0., 0.1, (n, n)), g.uniform(0.2, 0.9, (n, n))
+        use_slow = k % 2 == 0
+        hdu = create_charging_map_extension(fast, slow if use_slow else None)
+        path = os.path.join(d, 'chrg%d.fits' % k)
+        fits.HDUList([fits.PrimaryHDU(), hdu]).writeto(path, overwrite=True)
+        rf, rs = read_charging_map(path)
+        rep = dict(oracle='charging-map', n=n, slow_given=use_slow)
+        chk.case(dict(op='charging-map', nside=n, slow_given=use_slow), nontrivial=True)
+        with fits.open(path) as f:
+            check_cards(chk, f['CHRG_MAP'], xBinTableHDUCharging, 'CHRG_MAP', rep)
+        if not same_array(rf, fast) or not same_array(rs, slow if use_slow else numpy.zeros((n, n))):
+            what = 'fast and slow maps come back swapped' if same_array(rf, slow if use_slow else numpy.zeros((n, n))) and same_array(rs, fast) else 'maps differ'
+            chk.fail('impl', 'charging maps (%d x %d, slow map %s) written with create_charging_map_extension and read with read_charging_map: %s' % (
+                n, n, 'given' if use_slow else 'defaulted', what), rep)
 
 
 # ------------------------------------------------------------------------------------------------ binned products
@@ -753,6 +785,7 @@ def explore(chk, budget=1, tag='C19', lean=True, only=None):
         if only in (None, 'columns'):
             for _ in range(1 if quick else 3 * budget):
                 column_classes(chk, g, d, drv, jobs)
+            charging_maps(chk, g, d)
         if only in (None, 'date'):
             date_cases(chk, g, drv, jobs, (120 if quick else 3000) * budget)
         files = []
